@@ -1495,6 +1495,19 @@ class TLSConnection(TLSRecordLayer):
             signature_scheme = certificate_verify.signatureAlgorithm
             self.serverSigAlg = signature_scheme
 
+            # RFC 8446, section 4.4.3: the algorithm must be one we offered
+            cl_sig_algs = clientHello.getExtension(
+                ExtensionType.signature_algorithms)
+            offered_sig_algs = list(settings.dc_sig_algs or [])
+            if cl_sig_algs is not None and cl_sig_algs.sigalgs:
+                offered_sig_algs.extend(cl_sig_algs.sigalgs)
+            if signature_scheme not in offered_sig_algs:
+                for result in self._sendError(
+                        AlertDescription.illegal_parameter,
+                        "Server selected signature algorithm we didn't "
+                        "advertise"):
+                    yield result
+
             signature_context = KeyExchange.calcVerifyBytes((3, 4),
                                                             srv_cert_verify_hh,
                                                             signature_scheme,
